@@ -3,4 +3,5 @@
 HERE="$(cd "$(dirname "$0")" && pwd)"
 "$HERE/bootstrap.sh" || exit 2
 export PYTHONDONTWRITEBYTECODE=1 PYTHONHASHSEED=0 ANTISMASH_VERIF=1
+if [ -n "$SX_REPO" ]; then export PYTHONPATH="$SX_REPO${PYTHONPATH:+:$PYTHONPATH}"; fi
 cd "$HERE" && exec "$HERE/.venv/bin/python" -m sx "$@"
